@@ -423,6 +423,12 @@ func (ss *sess) collect(fs []*fence) (map[*fence][]notif.Msg, bool) {
 		}
 		id := f.pending
 		got, v, why := f.stream.Await(func(m notif.Msg) bool { return m.ID() == id }, opts)
+		if v == notif.Lost {
+			// no time bound in the statement: wait one more watchdog period before concluding
+			more, v2, why2 := f.stream.Await(func(m notif.Msg) bool { return m.ID() == id }, opts)
+			got, v, why = append(got, more...), v2, why2
+			ss.ctx.Count("marker_second_wait", 1)
+		}
 		if v != notif.Arrived {
 			ss.markerTrouble(kindName[f.kind]+":D="+f.dname+":C="+f.aname, v, why)
 			return nil, false
